@@ -384,7 +384,14 @@ func libReaderRead(g *FuncGen, c *ast.CallExpr, callee *types.Func, st *State) [
 	n := g.freshVal(st, "nread", types.Typ[types.Int])
 	err := g.newErr(st, "readerr")
 	g.assume(st, fmt.Sprintf("(and (<= 0 %s) (<= %s (blen (rdContent %s))))", pos, pos, r.T))
-	g.assume(st, fmt.Sprintf("(= %s (ite (<= %s 0) 0 (ite (< (blen %s) %s) (blen %s) %s)))", n.T, rem, buf.T, rem, buf.T, rem))
+	if callee.FullName() == "(*bytes.Reader).Read" {
+		// a bytes.Reader fills the buffer as far as it can
+		g.assume(st, fmt.Sprintf("(= %s (ite (<= %s 0) 0 (ite (< (blen %s) %s) (blen %s) %s)))", n.T, rem, buf.T, rem, buf.T, rem))
+	} else {
+		// a general io.Reader (zlib stream, tee) may return fewer bytes than asked for: at least one when
+		// something is left and the buffer is not empty, at most min(len(buf), remaining)
+		g.assume(st, fmt.Sprintf("(ite (or (<= %s 0) (= (blen %s) 0)) (= %s 0) (and (<= 1 %s) (<= %s (blen %s)) (<= %s %s)))", rem, buf.T, n.T, n.T, n.T, buf.T, n.T, rem))
+	}
 	g.assume(st, fmt.Sprintf("(= %s (ite (and (<= %s 0) (> (blen %s) 0)) %s 0))", err.T, rem, buf.T, g.ioEOF()))
 	nb := fmt.Sprintf("(bcat (bsub (rdContent %s) %s (+ %s %s)) (bsub %s %s (blen %s)))", r.T, pos, pos, n.T, buf.T, n.T, buf.T)
 	g.advance(st, r.T, n.T)
